@@ -282,7 +282,8 @@ fn simpler_cons(c: &Con) -> Vec<Con> {
                     out.push(Con::Cumulative { starts: starts.clone(), durations: durations.clone(), usages: u, capacity: *capacity, options: *options });
                 }
             }
-            if *capacity > 1 {
+            // never turn a task set without overloaded tasks into one with (a different defect)
+            if *capacity > 1 && usages.iter().all(|u| *u < *capacity) {
                 out.push(Con::Cumulative { starts: starts.clone(), durations: durations.clone(), usages: usages.clone(), capacity: capacity - 1, options: *options });
             }
         }
